@@ -101,6 +101,7 @@ def run(idx: ProgramIndex, rep: Report, tier: str):
     mll_scaling(idx, rep)
     covariance_consumes(idx, rep)
     added_terms_masked(idx, rep, consumers)
+    solution_containers(idx, rep, consumers)
     rep.rule("C16-7", "the NaN entries that record which observations are missing survive every consumer: no in-place update of cached tensors, object-owned tensors or the caller's targets (storage/version domain)")
     from .common_alias import aliasing_obligations
     aliasing_obligations(idx, rep, "C16-7", sorted(consumers, key=lambda f: (f.module.name, f.qualname)), 5, "policy consumers interpreted for in-place updates")
@@ -440,3 +441,47 @@ def added_terms_masked(idx: ProgramIndex, rep: Report, consumers):
                         "under the 'mask' policy the marginal is restricted to the observed values, but `%s` is evaluated without the mask: %s (built in %s from the inputs of the call) reduces over all training points, so points whose observation is missing still contribute to the objective" % (
                             " ".join(src(lc).split())[:50], cls.name, kfi.qualname), {"term_built_at": "%s:%d" % (kfi.module.relpath, kc.lineno)})
     rep.floor("C16-9", "masked objective x data-sized kernel-built term", n, 1)
+
+
+# ---- C16-10: the container of a masked solve has the shape of the solved system -------------------------------------------------
+def solution_containers(idx: ProgramIndex, rep: Report, consumers):
+    """Under 'mask' the solution exists for the observed entries only and is scattered into a NaN-filled container
+    (`c = torch.full_like(A, nan); c[..., observed] = K.solve(rhs[..., observed, :])`).  The right-hand side is labels minus prior mean:
+    its batch shape is the broadcast of the labels' and the prior's batch shapes.  A container shaped like the labels alone is too small
+    whenever the hyper-parameters carry a batch dimension the (shared) labels lack."""
+    rep.rule("C16-10", "the NaN-filled container that receives a masked solve is shaped like the right-hand side of that solve (labels broadcast with the prior), not like the labels alone")
+    from ..symbolic import inline, walk_paths
+    n = 0
+    for fi in consumers:
+        seen = set()
+        for path, seq in walk_paths(fi):
+            conts = {}
+            for st, env in seq:
+                if not isinstance(st, ast.stmt):
+                    continue
+                if isinstance(st, ast.Assign) and len(st.targets) == 1 and isinstance(st.targets[0], ast.Name) and isinstance(st.value, ast.Call) and chain(st.value.func) in ("torch.full_like", "torch.empty_like", "torch.zeros_like") and st.value.args:
+                    conts[st.targets[0].id] = (inline(st.value.args[0], env), st.lineno)
+                if isinstance(st, ast.Assign) and len(st.targets) == 1 and isinstance(st.targets[0], ast.Subscript) and isinstance(st.targets[0].value, ast.Name) and st.targets[0].value.id in conts:
+                    solves = [c for c in ast.walk(st.value) if isinstance(c, ast.Call) and isinstance(c.func, ast.Attribute) and c.func.attr in ("solve", "inv_matmul") and c.args]
+                    if not solves:
+                        continue
+                    shape_src, line = conts[st.targets[0].value.id]
+                    if (fi.qualname, line) in seen:
+                        continue
+                    seen.add((fi.qualname, line))
+                    n += 1
+                    rhs = inline(solves[0].args[0], env)
+                    rhs_roots = {chain(x) for x in ast.walk(rhs) if isinstance(x, ast.Attribute) and chain(x) and chain(x).startswith("self.")} | {x.id for x in ast.walk(rhs) if isinstance(x, ast.Name)}
+                    cont_roots = {chain(x) for x in ast.walk(shape_src) if isinstance(x, ast.Attribute) and chain(x) and chain(x).startswith("self.")} | {x.id for x in ast.walk(shape_src) if isinstance(x, ast.Name)}
+                    rhs_roots.discard("self"); cont_roots.discard("self")
+                    rhs_roots.discard("torch"); cont_roots.discard("torch")
+                    # operands of the right-hand side that the container's shape does not see
+                    unseen = sorted(r for r in rhs_roots - cont_roots if r and not r.startswith("settings") and r not in ("observed",) and not any(r == c or c.startswith(r + ".") or r.startswith(c + ".") for c in cont_roots))
+                    # index-only names (masks) do not contribute a shape
+                    masks = {a.targets[0].id for a in ast.walk(fi.node) if isinstance(a, ast.Assign) and len(a.targets) == 1 and isinstance(a.targets[0], ast.Name) and isinstance(a.value, ast.Call) and isinstance(a.value.func, ast.Attribute) and a.value.func.attr in ("_get_observed", "isnan")}
+                    unseen = [u for u in unseen if u not in masks]
+                    ok = not unseen
+                    rep.add("C16-10", "%s:%s[container of the masked solve]" % (fi.module.name, fi.qualname), "%s:%d" % (fi.module.relpath, line), ok,
+                            "the container is shaped like the right-hand side of the solve" if ok else
+                            "the container is shaped like `%s` but the right-hand side of the solve also depends on %s: when those carry batch dimensions the labels lack (batched hyper-parameters, shared targets) the scattered solution does not fit (shape mismatch) " % (" ".join(src(shape_src).split())[:50], ", ".join(unseen)[:80]), {})
+    rep.floor("C16-10", "containers of masked solves", n, 1)
